@@ -38,7 +38,7 @@ ES_PLACES = ["headers", "lastdata", "emptydata", "trailers"]
 CLS = [None, b"0", b"4", b"5"]
 ALPHABET = ("methods GET/HEAD/HEAD+trailers/POST; statuses 200/204/304/100->200/100->204; content-length absent/0/4/5 (and on the 1xx only); "
             "chunkings %s; END_STREAM on %s" % ([c[0] for c in CHUNKINGS], ES_PLACES))
-BOUNDS = {"quick": "full product (both directions) x {plain, header_encoding=utf-8, a PUSH_PROMISE for the other kind of method before the response}", "thorough": "full product, additionally with a second concurrent stream in flight and every 2-frame batching of the history"}
+BOUNDS = {"quick": "full product (both directions) x {plain, header_encoding=utf-8, a PUSH_PROMISE for the other kind of method before the response, a content-length field in the trailers, a refused second send_headers with the other kind of method}", "thorough": "full product, additionally with a second concurrent stream in flight and every 2-frame batching of the history"}
 
 
 def build_cases(tier):
@@ -88,7 +88,9 @@ _BASES = {}
 
 # plain | header_encoding='utf-8' | header validation off (the length rules are not header-list rules) | a PUSH_PROMISE
 # (other method) before the response
-VARIANTS = [None, "utf8", "novalidate", "push"]
+# trailercl: the trailers carry a content-length field of their own (7) - it says nothing about the message
+# othermethod: the client application makes a second, refused send_headers on the open request with the other kind of method
+VARIANTS = [None, "utf8", "novalidate", "push", "trailercl", "othermethod"]
 
 
 def base(direction, variant=None):
@@ -135,8 +137,15 @@ def run_case(case, batching=None, variant=None):
         m = b"HEAD" if method.startswith(b"HEAD") else method
         req = [(b":method", m), (b":scheme", b"https"), (b":path", b"/"), (b":authority", b"example.com")]
         with_trailers = method == b"HEAD+T"
-        o = H.call(conn, "send_headers", 1, H.ni(req), end_stream=not with_trailers)
+        o = H.call(conn, "send_headers", 1, H.ni(req), end_stream=not (with_trailers or variant == "othermethod"))
         assert o.kind == "ok", o.brief()
+        if variant == "othermethod":
+            other = b"GET" if m == b"HEAD" else b"HEAD"
+            o = H.call(conn, "send_headers", 1, H.ni([(b":method", other)] + req[1:]))
+            assert o.kind == "raise" and not o.raw, o.brief()
+            if not with_trailers:
+                o = H.call(conn, "end_stream", 1)
+                assert o.kind == "ok", o.brief()
         if with_trailers:
             o = H.call(conn, "send_headers", 1, H.ni([(b"x-req-trailer", b"1")]), end_stream=True)
             assert o.kind == "ok", o.brief()
@@ -148,6 +157,8 @@ def run_case(case, batching=None, variant=None):
         o = H.recv(conn, wire.push_promise(1, 2, H.stateless_block(preq)).serialize())
         assert o.kind == "ok", o.brief()
     frs = frames_for(case)
+    if variant == "trailercl" and esp == "trailers":
+        frs[-1] = wire.headers(1, H.stateless_block([(b"x-trailer", b"1"), (b"content-length", b"7")]), es=True)
     groups = [[f] for f in frs]
     if batching is not None and len(frs) > batching + 1:
         groups = [[f] for f in frs[:batching]] + [frs[batching:batching + 2]] + [[f] for f in frs[batching + 2:]]
@@ -195,7 +206,9 @@ def shard(job):
     n = 0
     for case in cases:
         for batching, variant in itertools.product(job["batchings"], job.get("variants", [None])):
-            if variant == "push" and case[0] != "B":
+            if variant in ("push", "othermethod") and case[0] != "B":
+                continue
+            if variant == "trailercl" and case[6] != "trailers":
                 continue
             exp = expected(case)
             got, o = run_case(case, batching, variant)
